@@ -75,20 +75,20 @@ ARMED = {
 EXT = {
  'C01': ('value chain of run() and collocation object built from ALL sweeper parameters (shared rules)', ''),
  'C02': ('deleted-override detection for every implementation that has a reference signature, alias-exact generator cache, generators dropped on re-initialisation, override obligations of the embedded tableau, nothing frozen at its first value (memo analysis)', 'memo-pattern analysis (def-use roots of cached value vs key)'),
- 'C03': ('sweep counter start, residual after every sweep, node-time pairing, MRO-resolved mass-matrix residual, no arithmetic on a whole IMEX f[m] in any sweeper of the repository incl. projects', 'second program model including pySDC/projects; MRO resolution'),
+ 'C03': ('sweep counter start, residual after every sweep, node-time pairing, MRO-resolved mass-matrix residual, no arithmetic on a whole IMEX f[m] and tau in every self-assembled residual of any sweeper of the repository incl. projects', 'second program model including pySDC/projects; MRO resolution'),
  'C04': ('override obligations of ButcherTableauEmbedded', ''),
  'C05': ('QDelta generator gets the left end of the interval, derived matrices of the second-order sweepers, compare-key caches cover every parameter', 'memo-pattern analysis'),
- 'C06': ('MultiStep history reset (two-sided, sign-case analysis), ControllerError guards, Tend-limiting skeleton, MPI gather order', 'sign-case evaluation of extracted guards'),
+ 'C06': ('MultiStep history reset (two-sided, sign-case analysis), ControllerError guards, Tend-limiting skeleton, MPI gather order, Hot Rod restores the whole list', 'sign-case evaluation of extracted guards'),
  'C07': ('payload finality of forwarded status flags, who may write its own parameters, first/last from the position in the block', ''),
  'C08': ('payload finality, MRO winners of the node-parallel sweepers, overridden life-cycle callbacks call super, no stale per-rank copy of a refreshed matrix, no in-place write into the send buffer', 'MRO resolution over the SweeperMPI lineage'),
- 'C09': ('dependency set-ups reach the base-class merge, validations read the declaring section (contradiction rule; found F28), user part last in every setup(), spread_from_first_restarted wiring', 'contradiction rule over description look-ups'),
+ 'C09': ('dependency set-ups reach the base-class merge, validations read the declaring section (contradiction rule; found F28), user part last in every setup(), spread_from_first_restarted wiring, error-estimate restart as the else-arm of the complete non-convergence test', 'contradiction rule over description look-ups'),
  'C10': ('tau term of every sweeper that can sit on a coarse level, collocation transfer matrices, node-parallel transfer normal forms, mass-matrix defect signature (shared rules); inherited tau enters through Rcoll only', ''),
  'C11': ('mass-matrix restrict clause-wise, sibling call sites pass the same options, FFT prolongation copies every resolved mode', ''),
- 'C12': ('exact / complete cache keys (no near hits), solver and eval_f feed model helpers the same kind of time, operand-preparation agreement of sibling splittings, cached shared operators never changed in place, no overwrite_* / out= on an argument', 'memo-pattern analysis; forward def-use pass with strong updates'),
+ 'C12': ('exact / complete cache keys (no near hits), solver and eval_f feed model helpers the same kind of time, operand-preparation agreement of sibling splittings, cached shared operators never changed in place, no overwrite_* / out= on an argument, Newton Jacobian = symbolic derivative of the Newton residual (12 loops), eval_f and solver prepare boundary entries identically (found F29)', 'memo-pattern analysis; forward def-use pass with strong updates; symbolic differentiation (sympy) of extracted expressions'),
  'C14': ('exact accumulator, LogWork baseline, hook de-duplication by exact type, post_run under `last`, restart-generation override order, marker key constants', ''),
  'C15': ('residual always recomputed (no stage name), value chain of run() across blocks', ''),
  'C16': ('block tiling (finite fallback), readers rebuilt per call, properties derived from gRank store nothing', 'finite case analysis on extracted index expressions'),
- 'C17': ('ultraspherical conversion chain, cached results never changed in place, kwargs reach the row builders unchanged, caches of plans keyed completely, no magnitude threshold in eliminate_zeros, single source of the scaled wavenumbers', 'memo-pattern analysis'),
+ 'C17': ('ultraspherical conversion chain, cached results never changed in place, kwargs reach the row builders unchanged, caches of plans keyed completely, no magnitude threshold in eliminate_zeros, single source of the scaled wavenumbers, symbolic S(p) D(p) = 1 for the Fourier operators', 'memo-pattern analysis'),
  'C18': ('Kronecker dispatch by abstract interpretation, centred layout (finite fallback), read-only defaults table, cache keys complete and hits guarded, offsets travel with the weights, every popped option used', 'abstract interpretation over tensor-factor tuples; memo-pattern analysis'),
  'C19': ('per-level dicts, restart-counter coverage (finite case analysis), inventories of sweeper / convergence-controller / hook instance state (tables B6-B8; found F23, F26, F27), problem attributes never read back, life-cycle overrides call super', 'inventories with reason tables; finite case analysis'),
  'C20': ('exact rejection guards, strict registry look-ups, per-class allow-lists, reference table of read-only declarations, dependency set-ups, look-ups in the declaring section, who may write its own parameters, registries only grow', 'reference tables; contradiction rule'),
